@@ -32,6 +32,20 @@ theorem C09_one_result_per_row (O : Oracle G) (cfg : Cfg) (a e : Bool) (frame : 
       subst h
       simp [pass, passRows_length, List.length_zipIdx]
 
+/-- **The empty-target-area exit** (the documented exception to the normal procedure): taken exactly when the
+frame has rows, `allow_empty_area` is false and no trace meets the area; then every row keeps its geometry and
+carries exactly the empty-area error, one result per row, the class attribute untouched. -/
+theorem C09_empty_area (O : Oracle G) (cfg : Cfg) (a e : Bool) (frame : List G) (glob : String) :
+    ((∃ rows, (run O cfg a e frame glob).1 = .emptyArea rows) ↔ (frame ≠ [] ∧ a = false ∧ e = true)) ∧
+    (∀ rows, (run O cfg a e frame glob).1 = .emptyArea rows →
+      rows = frame.map (fun g => (g, [cfg.emptyAreaError])) ∧ (run O cfg a e frame glob).2 = glob) := by
+  unfold run
+  cases hf : frame.isEmpty
+  · have hne : frame ≠ [] := by intro h; simp [h] at hf
+    cases a <;> cases e <;> simp [hne]
+  · have : frame = [] := by simpa using hf
+    simp [this]
+
 /-! ### error tuples: duplicate-free and documented -/
 
 /-- the strings a configuration can report: the static `ERROR`s of its validators and whatever a
@@ -204,7 +218,8 @@ theorem C09_validator_table :
     Gen.major_validators = Spec.majorValidators.map (fun v => (v.name, v.staticError, v.lsOnly, v.dynamic)) ∧
     Gen.major_errors = Spec.majorErrors ∧
     Gen.underlap_written.Perm Spec.underlapStrings ∧
-    Gen.requires_nodes = ["MultiJunctionValidator", "VNodeValidator"] := by
+    Gen.requires_nodes = ["MultiJunctionValidator", "VNodeValidator"] ∧
+    Gen.empty_area_error = Spec.emptyAreaError ∧ Gen.empty_area_exit_writes_error = true := by
   decide
 
 /-- with the documented validators every reported string is one of the documented strings -/
@@ -224,8 +239,15 @@ example :
     -- geometries: 0 = fine line, 1 = mergeable multi (fix -> 0), 2 = unmergeable multi
     let O : Oracle Nat := ⟨fun g => if g = 0 then .line else .multi, fun v _ g _ => if v.name == "type" then g == 0 else true,
       fun _ _ _ _ => "", fun _ g => if g = 1 then some 0 else none⟩
-    let cfg : Cfg := ⟨true, ["GEOM TYPE MULTILINESTRING", "NULL GEOMETRY"], [nullV, typeV], [nullV, typeV, simpleV], none⟩
+    let cfg : Cfg := ⟨true, ["GEOM TYPE MULTILINESTRING", "NULL GEOMETRY"], [nullV, typeV], [nullV, typeV, simpleV], none, "EMPTY TARGET AREA"⟩
     (run O cfg true false [0, 1, 2] "x").1 = .validated [(0, []), (0, []), (2, ["GEOM TYPE MULTILINESTRING"])] := by
+  decide
+
+/-- non-vacuity of `C09_empty_area`: two rows, area void of traces, `allow_empty_area = false` -/
+example :
+    let O : Oracle Nat := ⟨fun _ => .line, fun _ _ _ _ => true, fun _ _ _ _ => "", fun _ _ => none⟩
+    let cfg : Cfg := ⟨true, [], [], [], none, "EMPTY TARGET AREA"⟩
+    (run O cfg false true [7, 8] "x") = (.emptyArea [(7, ["EMPTY TARGET AREA"]), (8, ["EMPTY TARGET AREA"])], "x") := by
   decide
 
 end C09
